@@ -60,9 +60,20 @@ func registerVF() {
 		if k <= 1 {
 			return 0
 		}
+		// a fresh variable constrained only to [0,k): every value is feasible,
+		// so the choice needs no solver query
 		v := c.newVar(argStr(args[0]), types.Int).(symv)
-		c.assume(mkCmp(opUlt, v.t, mkConst(64, uint64(k))))
-		return int(c.concretize(v.t))
+		idx := c.choose(k)
+		c.addPC(mkCmp(opEq, v.t, mkConst(64, uint64(idx))))
+		if c.model != nil && idx != 0 {
+			m := make(Model, len(c.model)+1)
+			for k, x := range c.model {
+				m[k] = x
+			}
+			m[v.t.name] = uint64(idx)
+			c.setModel(m)
+		}
+		return idx
 	}
 	externals[vfPkg+".Concrete"] = func(fr *frame, args []value) value {
 		return fr.concValue(args[0])
@@ -155,6 +166,7 @@ func registerVF() {
 	}
 	externals[vfPkg+".WatchOn"] = func(fr *frame, args []value) value { fr.i.ctx.watchOn = true; return nil }
 	externals[vfPkg+".WatchOff"] = func(fr *frame, args []value) value { fr.i.ctx.watchOn = false; return nil }
+	externals[vfPkg+".SymbolicTime"] = func(fr *frame, args []value) value { fr.i.ctx.symTime = true; return nil }
 	// Watch/lockset support
 	externals[vfPkg+".LocksHeld"] = func(fr *frame, args []value) value {
 		return len(fr.i.ctx.held)
